@@ -69,6 +69,40 @@ class _Helper:
         own = list(_walk_own(self.body))
         self.returns = [x for x in own if isinstance(x, ast.Return)]
         self.is_gen = any(isinstance(x, (ast.Yield, ast.YieldFrom)) for x in own)
+        if self.is_gen and self.returns and all(r.value is None for r in self.returns) and self.body and \
+                isinstance(self.body[-1], (ast.For, ast.While)) and not self.body[-1].orelse:
+            # a generator that ends with a loop and leaves it by a bare `return`: that is a `break` of the loop
+            loop = self.body[-1]
+
+            def direct(stmts: list[ast.stmt]) -> list[ast.Return]:
+                out: list[ast.Return] = []
+                for s in stmts:
+                    if isinstance(s, ast.Return):
+                        out.append(s)
+                    elif isinstance(s, (ast.For, ast.While, ast.FunctionDef, ast.AsyncFunctionDef, ast.ClassDef)):
+                        continue
+                    else:
+                        for fld in ('body', 'orelse', 'finalbody'):
+                            v = getattr(s, fld, None)
+                            if isinstance(v, list) and v and isinstance(v[0], ast.stmt):
+                                out += direct(v)
+                        for hd in getattr(s, 'handlers', []) or []:
+                            out += direct(hd.body)
+                return out
+            inside = direct(loop.body)
+            if len(inside) == len(self.returns):
+                import copy as _copy
+                body = _copy.deepcopy(self.body)
+
+                class R(ast.NodeTransformer):
+                    def visit_Return(self, n: ast.Return) -> Any:
+                        return ast.copy_location(ast.Break(), n)
+
+                    def visit_FunctionDef(self, n: ast.FunctionDef) -> Any:
+                        return n
+                body[-1] = R().visit(body[-1])
+                self.body = body
+                self.returns = []
         self.has_nested = any(isinstance(x, (ast.FunctionDef, ast.AsyncFunctionDef, ast.ClassDef, ast.Lambda, ast.Global, ast.Nonlocal))
                               for s in self.body for x in ast.walk(s))
         a = fn.args
